@@ -188,8 +188,8 @@ pub fn standard(quick: bool, scale: i32) -> Vec<Slice> {
         name: "builtins".into(),
         frames: gram::frames(false, false).into_iter().filter(|f| f.sdef == 0 && f.ws <= 1 && (f.ty == 0 || f.ty == 2) && (f.ws == 0 || f.ty == 0)).collect(),
         bodies: Rc::new(gram::builtin_bodies()),
-        len: 3,
-        len4: 3,
+        len: if quick { 2 } else { 3 },
+        len4: if quick { 2 } else { 3 },
         extra_rules: "", explicit_inputs: None
     });
     v.push(Slice {
@@ -235,7 +235,18 @@ pub fn standard(quick: bool, scale: i32) -> Vec<Slice> {
     });
     v.push(Slice {
         whole_grammars: false,
-        extra_alpha: vec!['A', '-'],
+        extra_alpha: vec![],
+        name: "tagged-failures".into(),
+        frames: gram::frames(false, false).into_iter().filter(|f| f.ws <= 1 && f.ty == 0 && f.sdef <= 1).collect(),
+        bodies: Rc::new(gram::tagged_failure_bodies()),
+        len: 4,
+        len4: 3,
+        extra_rules: "",
+        explicit_inputs: None,
+    });
+    v.push(Slice {
+        whole_grammars: false,
+        extra_alpha: vec!['A', '-', '\r', '{', '\u{c9}', '\u{e9}'],
         name: "literal-pairs".into(),
         frames: gram::frames(false, false).into_iter().filter(|f| f.sdef == 0 && f.ws <= 1 && (f.ty == 0 || f.ty == 2) && (f.ws == 0 || f.ty == 0)).collect(),
         bodies: Rc::new(gram::literal_pair_bodies()),
@@ -286,7 +297,18 @@ pub fn small(quick: bool) -> Vec<Slice> {
     v.push(Slice { whole_grammars: false, extra_alpha: vec![], name: "redexes".into(), frames: gram::frames(false, false).into_iter().filter(|f| !quick || f.sdef == 0).collect(), bodies: Rc::new(redex), len: if quick { 3 } else { 4 }, len4: 3, extra_rules: gram::REDEX_EXTRA_RULES, explicit_inputs: None });
     v.push(Slice {
         whole_grammars: false,
-        extra_alpha: vec!['A', '-'],
+        extra_alpha: vec![],
+        name: "tagged-failures".into(),
+        frames: gram::frames(false, false).into_iter().filter(|f| f.ws <= 1 && f.ty == 0 && f.sdef <= 1).collect(),
+        bodies: Rc::new(gram::tagged_failure_bodies()),
+        len: 4,
+        len4: 3,
+        extra_rules: "",
+        explicit_inputs: None,
+    });
+    v.push(Slice {
+        whole_grammars: false,
+        extra_alpha: vec!['A', '-', '\r', '{', '\u{c9}', '\u{e9}'],
         name: "literal-pairs".into(),
         frames: gram::frames(false, false).into_iter().filter(|f| f.sdef == 0 && f.ws <= 1 && (f.ty == 0 || f.ty == 2) && (f.ws == 0 || f.ty == 0)).collect(),
         bodies: Rc::new(gram::literal_pair_bodies()),
